@@ -672,6 +672,11 @@ func (c *cmafIngester) sendMediaSegment(ctx context.Context, wg *sync.WaitGroup,
 			return
 		}
 	}
+	if code != 0 {
+		// The URL configuration makes this segment fail (statuscode parameter): nothing was written, nothing is sent
+		c.log.Info("segment not sent", "path", segPath, "code", code)
+		return
+	}
 	if c.useChunked {
 		select {
 		case <-writeMoreCh: // Capture final message
